@@ -31,7 +31,6 @@ Proof. intros H1 H2 k x Hk Hx Hne Hok. pose proof (H1 k x Hk Hx Hne Hok) as Hin.
 
 (* environment *)
 Record env_ok (e : env) (ke : keyenv) (A : assets) (K : list key) : Prop := {
-  eo_mif : minimalif (e_sv e) = true;            (* segwit v0 / tapscript: MINIMALIF *)
   eo_se : forall kbs, e_sigok e kbs [] = false;
   eo_after : forall t, (0 < t < 2147483648)%N -> a_after A t = check_locktime e (Z.of_N t);
   eo_older : forall t, (0 < t < 2147483648)%N -> a_older A t = check_sequence e (Z.of_N t);
@@ -60,14 +59,14 @@ Theorem nonmall_unique_script_full (e : env) (ke : keyenv) (A : assets) (se : se
   linked ke A se f -> locks_compatible se -> (forall ks, Permutation (ksort ke ks) ks) -> sigs_distinct ke A ->
   forall (rhs : bool) (m : ms) (t : ty),
   type_of m = ROk t -> c_base (t_corr t) = BB -> wf e ke m -> no_multi m -> NoDup (ukeys m) -> m_nm (t_mall t) = true ->
-  env_ok e ke A (ukeys m) ->
+  ifsafe (minimalif (e_sv e)) m -> env_ok e ke A (ukeys m) ->
   forall bs, satisfy ke se f false rhs m = Some bs ->
   forall w', accepts e (enc ke m) w' = true -> third_party_material e ke A (ukeys m) (rev bs) w' -> w' = rev bs.
 Proof.
-  intros HL [Ha Hr] Hks HD rhs m t Ht Hb Hwf Hnr Hnd Hnm HE bs Hs w' Hacc Hmat. unfold satisfy in Hs.
+  intros HL [Ha Hr] Hks HD rhs m t Ht Hb Hwf Hnr Hnd Hnm Hif HE bs Hs w' Hacc Hmat. unfold satisfy in Hs.
   destruct (s_stack (snd (sat_dissat ke se false rhs m))) as [l| |] eqn:El; try discriminate.
-  pose proof (script_inv e ke A se f HL Ha Hr (eo_mif _ _ _ _ HE) (eo_after _ _ _ _ HE) (eo_older _ _ _ _ HE) (eo_pre _ _ _ _ HE)
-                (ukeys m) (eo_pkh _ _ _ _ HE) l rhs (eo_se _ _ _ _ HE) Hks m (wf_uwf e ke m Hwf Hnr) (wf_lwf e ke m Hwf) Hnd (incl_refl _) t Ht Hnm) as F.
+  pose proof (script_inv e ke A se f HL Ha Hr (eo_after _ _ _ _ HE) (eo_older _ _ _ _ HE) (eo_pre _ _ _ _ HE)
+                (ukeys m) (eo_pkh _ _ _ _ HE) l rhs (eo_se _ _ _ _ HE) Hks m (wf_uwf e ke m Hwf Hnr) (wf_lwf e ke m Hwf) Hif Hnd (incl_refl _) t Ht Hnm) as F.
   apply (js_stk _ _ _ _ _ _ _ _ _ (f_sat _ _ _ _ _ _ _ _ _ _ _ F) l bs El Hs).
   - intros k _ H. exact H.
   - intros k x Hk Hx Hne Hok. destruct (Hmat k x Hk Hx Hne Hok) as [Ea Hin]. split; [exact Ea|].
@@ -82,14 +81,14 @@ Theorem nonmall_script_exact (e : env) (ke : keyenv) (A : assets) (se : senv) (f
   assets_ok e ke A ->
   forall (rhs : bool) (m : ms) (t : ty),
   type_of m = ROk t -> c_base (t_corr t) = BB -> wf e ke m -> no_multi m -> NoDup (ukeys m) -> m_nm (t_mall t) = true ->
-  env_ok e ke A (ukeys m) ->
+  ifsafe (minimalif (e_sv e)) m -> env_ok e ke A (ukeys m) ->
   forall bs, satisfy ke se f false rhs m = Some bs ->
   sigs_recognisable e ke A (ukeys m) (rev bs) ->
   forall w', no_forgery e ke (ukeys m) (rev bs) w' ->
     (accepts e (enc ke m) w' = true <-> w' = rev bs).
 Proof.
-  intros HL HC Hks HD HA rhs m t Ht Hb Hwf Hnr Hnd Hnm HE bs Hs Hrec w' Hnf. split.
-  - intros Hacc. exact (nonmall_unique_script_full e ke A se f HL HC Hks HD rhs m t Ht Hb Hwf Hnr Hnd Hnm HE bs Hs w' Hacc
+  intros HL HC Hks HD HA rhs m t Ht Hb Hwf Hnr Hnd Hnm Hif HE bs Hs Hrec w' Hnf. split.
+  - intros Hacc. exact (nonmall_unique_script_full e ke A se f HL HC Hks HD rhs m t Ht Hb Hwf Hnr Hnd Hnm Hif HE bs Hs w' Hacc
                           (material_of_parts e ke A _ _ _ Hnf Hrec)).
   - intros ->. exact (model_satisfaction_spends e ke A se f HL (fun ks => Permutation_length (Hks ks)) HA (eo_se _ _ _ _ HE) false rhs m t Ht Hb Hwf Hnr bs Hs).
 Qed.
@@ -147,7 +146,6 @@ Definition sx_bs : list bytes := [[2; 2; 1]; []; [2; 0; 1]].     (* push order *
 Lemma sx_env_ok : env_ok ex_env ex_ke sx_A (ukeys sx_ms).
 Proof.
   constructor.
-  - reflexivity.
   - intros kbs. cbn. destruct kbs; reflexivity.
   - intros t Ht. cbn [sx_A a_after]. unfold in_range. replace (N.ltb 0 t) with true by (symmetry; apply N.ltb_lt; lia).
     replace (N.ltb t 2147483648) with true by (symmetry; apply N.ltb_lt; lia). reflexivity.
@@ -178,7 +176,7 @@ Qed.
 Theorem script_full_nonvacuous :
   linked ex_ke sx_A sx_se sx_f /\ locks_compatible sx_se /\ (forall ks, Permutation (ksort ex_ke ks) ks) /\ sigs_distinct ex_ke sx_A /\
   (exists t, type_of sx_ms = ROk t /\ c_base (t_corr t) = BB /\ m_nm (t_mall t) = true /\ m_signed (t_mall t) = true) /\
-  wf ex_env ex_ke sx_ms /\ no_multi sx_ms /\ NoDup (ukeys sx_ms) /\ env_ok ex_env ex_ke sx_A (ukeys sx_ms) /\
+  wf ex_env ex_ke sx_ms /\ no_multi sx_ms /\ NoDup (ukeys sx_ms) /\ ifsafe (minimalif (e_sv ex_env)) sx_ms /\ env_ok ex_env ex_ke sx_A (ukeys sx_ms) /\
   satisfy ex_ke sx_se sx_f false true sx_ms = Some sx_bs /\
   accepts ex_env (enc ex_ke sx_ms) (rev sx_bs) = true /\
   third_party_material ex_env ex_ke sx_A (ukeys sx_ms) (rev sx_bs) (rev sx_bs) /\
@@ -187,7 +185,27 @@ Theorem script_full_nonvacuous :
 Proof.
   split; [apply linked_of|]. split; [apply sx_locks|]. split; [intros ks; apply Permutation_refl|]. split; [apply sx_distinct|].
   split; [eexists; split; [vm_compute; reflexivity | repeat split; reflexivity]|].
-  split; [cbn; repeat split; lia|]. split; [cbn; tauto|]. split; [cbn; repeat constructor; cbn; intuition discriminate|].
+  split; [cbn; repeat split; lia|]. split; [cbn; tauto|]. split; [cbn; repeat constructor; cbn; intuition discriminate|]. split; [apply ifsafe_true|].
   split; [apply sx_env_ok|]. split; [vm_compute; reflexivity|]. split; [vm_compute; reflexivity|]. split; [apply sx_material_self|].
   vm_compute. reflexivity.
+Qed.
+
+(* [ifsafe] is necessary: under the base signature version (no MINIMALIF) the selector of or_i is malleable.
+   or_i(pk(0), pk(1)) with the signature of key 0: the witness [sig0 01] is accepted, and so is [sig0 02]. *)
+Definition sxb_env : env :=
+  mkEnv SvBase 100 0 2 (e_sigok ex_env) (e_keyok ex_env) (e_sha256 ex_env) (e_hash256 ex_env) (e_ripemd160 ex_env) (e_hash160 ex_env).
+Definition sxb_ms : ms := MOrI (MCheck (MPkK 0)) (MCheck (MPkK 1)).
+Theorem script_needs_ifsafe :
+  (exists t, type_of sxb_ms = ROk t /\ c_base (t_corr t) = BB /\ m_nm (t_mall t) = true /\ m_signed (t_mall t) = true) /\
+  wf sxb_env ex_ke sxb_ms /\ ~ ifsafe (minimalif (e_sv sxb_env)) sxb_ms /\
+  satisfy ex_ke sx_se sx_f false true sxb_ms = Some [[2; 0; 1]; [1]] /\
+  accepts sxb_env (enc ex_ke sxb_ms) [[1]; [2; 0; 1]] = true /\
+  accepts sxb_env (enc ex_ke sxb_ms) [[2]; [2; 0; 1]] = true /\
+  third_party_material sxb_env ex_ke sx_A (ukeys sxb_ms) [[1]; [2; 0; 1]] [[2]; [2; 0; 1]].
+Proof.
+  split; [eexists; split; [vm_compute; reflexivity | repeat split; reflexivity]|].
+  split; [cbn; tauto|]. split; [cbn; intros [H _]; discriminate|].
+  split; [vm_compute; reflexivity|]. split; [vm_compute; reflexivity|]. split; [vm_compute; reflexivity|].
+  intros k x Hk Hx Hne Hok. cbn in Hk, Hx.
+  destruct Hk as [<-|[<-|[]]]; destruct Hx as [<-|[<-|[]]]; try (cbn in Hok; discriminate); (split; [reflexivity | cbn; auto]).
 Qed.
